@@ -672,7 +672,62 @@ def r13_10(chk):
     chk.floor("R13.10", 3, "cache appends of the two stores")
 
 
+LAZY_CACHES = ("_completed", "_not_completed")
+
+
+def r13_12(chk):
+    chk.rule("R13.12", "an empty lazy cache means 'not loaded', not 'nothing there': outside the two member properties (whose `if not self._x:` IS the lazy load) no method of a store decides anything by testing self._completed / self._not_completed -- after a re-open, or right after a drop reset it, the cache is empty while the store holds records, so `elif not self._not_completed: return` in drop_not_completed silently keeps the record it was asked to drop")
+    n = 0
+    for rel, cname in ((DS, "DataStoreDirectory"), (SQ, "DataStoreSqlite")):
+        m = chk.repo.module(rel)
+        ci = m.cls(cname)
+        for name, fn in ci.methods.items():
+            if not isinstance(fn, ast.FunctionDef) or name in ("completed", "not_completed", "__init__"):
+                continue
+            tests = [t for x in walk_no_nested(fn) if isinstance(x, (ast.If, ast.IfExp, ast.While)) for t in [x.test]] + [x for x in walk_no_nested(fn) if isinstance(x, ast.Assert)]
+            bad = None
+            for t in tests:
+                expr = t.test if isinstance(t, ast.Assert) else t
+                # membership tests (`member in self._completed`) read the content after a load elsewhere; a bare truth / len test is the hazard
+                for y in ast.walk(expr):
+                    if isinstance(y, ast.Attribute) and y.attr in LAZY_CACHES and isinstance(y.value, ast.Name) and y.value.id == "self":
+                        parent_ok = any(isinstance(c, ast.Compare) and any(isinstance(o, (ast.In, ast.NotIn)) for o in c.ops) and any(z is y for z in ast.walk(c)) for c in ast.walk(expr))
+                        if not parent_ok:
+                            bad = t
+            n += 1
+            chk.decide(bad is None, "R13.12", key(m, f"{cname}.{name}", "no decision on an unloaded cache"), m.loc(bad if bad is not None else fn), "the lazy caches are not truth-tested", f"`{norm(bad.test if isinstance(bad, ast.Assert) else bad)[:60] if bad is not None else ''}` reads the private lazy cache: it is empty before the first listing after a re-open (and after a reset), so the branch runs although the store holds such records")
+    chk.floor("R13.12", 10, "methods of the two stores")
+
+
+def r13_13(chk):
+    chk.rule("R13.13", "what can be written can be listed: the member properties of the directory store enumerate the directory glob itself -- no filter between the glob and the member list other than the `limit` cut (no `continue`, no filtering wrapper); the writer accepts any identifier, so a listing that skips some file names (hidden files) makes a record vanish on re-open and lets append mode overwrite it")
+    m = chk.repo.module(DS)
+    ci = m.cls("DataStoreDirectory")
+    n = 0
+    for name in ("completed", "not_completed"):
+        fn = ci.methods.get(name)
+        if not isinstance(fn, ast.FunctionDef):
+            raise AnalysisError(f"DataStoreDirectory.{name} not found")
+        loops = [lp for lp in walk_no_nested(fn) if isinstance(lp, ast.For)]
+        if not loops:
+            raise AnalysisError(f"DataStoreDirectory.{name}: listing loop not found")
+        for lp in loops:
+            n += 1
+            it = lp.iter
+            while isinstance(it, ast.Call) and norm(it.func) in ("enumerate", "sorted", "list", "iter"):
+                it = it.args[0]
+            if isinstance(it, ast.Name):
+                defs = [st.value for st in walk_no_nested(fn) if isinstance(st, ast.Assign) and norm(st.targets[0]) == it.id]
+                it = defs[-1] if defs else it
+            direct = isinstance(it, ast.Call) and isinstance(it.func, ast.Attribute) and it.func.attr in ("glob", "iterdir", "rglob")
+            skips = [x for b in lp.body for x in ast.walk(b) if isinstance(x, ast.Continue)]
+            chk.decide(direct and not skips, "R13.13", key(m, f"DataStoreDirectory.{name}", "lists every file the glob yields"), m.loc(lp), "iterates the glob directly; only the limit cut", f"the listing iterates `{norm(lp.iter)[:60]}`{' and skips entries with continue' if skips else ''}: files the writer can create under such names are not members after a re-open (`.x.fasta`), and append mode then overwrites them")
+    chk.floor("R13.13", 2, "completed and not_completed")
+
+
 def run(chk):
+    r13_13(chk)
+    r13_12(chk)
     r13_10(chk)
     r13_9(chk)
     r13_7(chk)
